@@ -68,6 +68,7 @@ class Search:
         stmts, _ = single_exit(clone(fi.body), '__ret__')
         be = BlockEval(fi.qualname, loop_ok=lambda s: True)
         be.run(stmts)
+        self.stmts = stmts
         if len(be.loops_done) != 1:
             raise AnalysisError('%s: expected exactly one search loop' % fi.qualname)
         self.loop, self.entry, body_env, self.loop_pc = be.loops_done[0]
@@ -265,6 +266,27 @@ def early_exits(ctx, fi, S, allowed_tests, what):
         if t is not None and not pol:
             # `X if not (c) else 0`: the leaf is taken when c holds
             ok = False
+        if not ok and t is not None:
+            # the search's OWN acceptance test, evaluated at the far end of the bracket on the unsound side: if it already holds there, that
+            # end is sound and no candidate beyond it exists, so the search would converge to it (e.g. cdp_eps: cdp_delta(rho, 0) <= delta -> 0)
+            other_end = S.false_var
+            at_end = Replace(lambda n: clone(S.inits[other_end]) if isinstance(n, ast.Name) and n.id == S.MID else None).visit(clone(S.test))
+            def num(x):
+                try:
+                    return float(ast.literal_eval(x))
+                except Exception:
+                    return None
+            same_value = T(e) == T(S.inits[other_end]) or (num(e) is not None and num(e) == num(S.inits[other_end]))
+            tt, tpol = strip_not(t, pol)
+            at, apol = strip_not(at_end, True)
+            def norm_num(x):
+                return Replace(lambda n: ast.Constant(value=float(n.value)) if isinstance(n, ast.Constant) and isinstance(n.value, (int, float))
+                               and not isinstance(n.value, bool) else None).visit(clone(x))
+            if same_value and T(norm_num(tt)) == T(norm_num(at)) and tpol == apol:
+                ctx.ob('early-exit', fi, fi.node, True,
+                       '%s: `%s` is returned when the acceptance test of the search already holds at that end of the bracket (`%s`)' % (fi.name, U(e), U(t)),
+                       construct='early result `%s` when `%s`' % (U(e), U(t)))
+                continue
         ctx.ob('early-exit', fi, fi.node, ok,
                '%s: a result not computed by the search must be one of the degenerate cases with an exact test (%s) and be 0; found `%s` when `%s%s`'
                % (fi.name, what, U(e), '' if pol else 'not ', U(t) if t is not None else 'always'),
@@ -442,6 +464,88 @@ def check_skip(ctx, fi, S):
            construct='skip condition of the search in ' + fi.name)
 
 
+def bracket_growth(ctx, fi, S, sound, unsound, kind):
+    """a loop before the search that moves the bracket until the other end fails the acceptance test:
+         while ACCEPT(U): L = U; U *= k        (k > 1)
+    L only ever receives values the test has accepted, U ends as the first value that fails it.  -> (seed of L, seed of U) before that loop,
+    or None when there is no such loop.  Any other re-seeding of an end between that loop and the search is reported."""
+    body = S.stmts
+
+    def holder(stmts):
+        # the statement list that holds the search loop (single-exit form nests the tail under the early-return tests)
+        for s_ in stmts:
+            if s_ is S.loop:
+                return stmts
+            for f_ in ('body', 'orelse'):
+                sub = getattr(s_, f_, None)
+                if isinstance(sub, list) and sub and isinstance(sub[0], ast.stmt) and not isinstance(s_, (ast.For, ast.While)):
+                    r_ = holder(sub)
+                    if r_ is not None:
+                        return r_
+        return None
+    body = holder(body)
+    if body is None:
+        return None
+    i_search = body.index(S.loop)
+    whiles = [s_ for s_ in body[:i_search] if isinstance(s_, ast.While)]
+    if not whiles:
+        return None
+    if len(whiles) > 1:
+        raise AnalysisError('%s: more than one loop before the search' % fi.qualname)
+    w = whiles[0]
+    i_w = body.index(w)
+    want = Replace(lambda n: ast.Name(id=unsound, ctx=ast.Load()) if isinstance(n, ast.Name) and n.id == S.MID else None).visit(clone(S.test))
+    ok_test = T(w.test) == T(want)
+    moves = [s_ for s_ in w.body]
+    ok_body = False
+    if (len(moves) == 2 and isinstance(moves[0], ast.Assign) and U(moves[0].targets[0]) == sound and U(moves[0].value) == unsound) or len(moves) == 1:
+        g = moves[-1]
+        k = None
+        if isinstance(g, ast.AugAssign) and U(g.target) == unsound and isinstance(g.op, ast.Mult) and isinstance(g.value, ast.Constant):
+            k = g.value.value
+        elif isinstance(g, ast.Assign) and U(g.targets[0]) == unsound and isinstance(g.value, ast.BinOp) and isinstance(g.value.op, ast.Mult):
+            l_, r_ = g.value.left, g.value.right
+            if U(l_) == unsound and isinstance(r_, ast.Constant):
+                k = r_.value
+            elif U(r_) == unsound and isinstance(l_, ast.Constant):
+                k = l_.value
+        ok_body = k is not None and ((k > 1) if kind == 'rho' else (0 < k < 1))
+    if not (ok_test and ok_body) or w.orelse:
+        raise AnalysisError('%s: the loop `while %s` before the search is not a recognised bracket-growth loop' % (fi.qualname, U(w.test)[:60]))
+    # nothing else may touch the two ends between the growth loop and the search
+    for s_ in body[i_w + 1:i_search]:
+        for n in ast.walk(s_):
+            if isinstance(n, (ast.Assign, ast.AugAssign)):
+                for t_ in (n.targets if isinstance(n, ast.Assign) else [n.target]):
+                    for nm in target_names(t_):
+                        if nm in (sound, unsound):
+                            ctx.ob('sound-seed', fi, n, False,
+                                   'after the bracket-growth loop the end `%s` is re-seeded with `%s`, a value the acceptance test `%s` has not been '
+                                   'evaluated on (if the growth loop does not run at all it is derived from the initial guess only): the invariant of '
+                                   'the search does not hold at its start' % (nm, U(n.value)[:60], U(S.test)[:60]),
+                                   construct='seed of the sound end of ' + fi.name)
+    seeds = {}
+    for s_ in body[:i_w]:
+        if isinstance(s_, ast.Assign) and len(s_.targets) == 1 and isinstance(s_.targets[0], ast.Name) and s_.targets[0].id in (sound, unsound):
+            seeds[s_.targets[0].id] = s_.value
+    if sound not in seeds or unsound not in seeds:
+        # the sound end has no seed of its own before the growth loop (it is only set inside / after it)
+        if sound not in seeds:
+            ctx.ob('sound-seed', fi, w, False,
+                   'the sound end `%s` has no value before the bracket-growth loop: when that loop does not run, the search starts from a value the '
+                   'acceptance test has not been evaluated on' % sound, construct='seed of the sound end of ' + fi.name)
+            seeds.setdefault(sound, ast.Constant(value=0.0))
+        if unsound not in seeds:
+            raise AnalysisError('%s: the other end `%s` has no seed before the growth loop' % (fi.qualname, unsound))
+    u0 = seeds[unsound]
+    if not (isinstance(u0, ast.Constant) and isinstance(u0.value, (int, float)) and u0.value > 0):
+        raise AnalysisError('%s: the growth loop starts from `%s`, not a positive literal' % (fi.qualname, U(u0)))
+    ctx.ob('sound-side', fi, w, True,
+           'bracket grown before the search: `%s` only receives values the acceptance test has passed, `%s` ends as the first value that fails it'
+           % (sound, unsound), construct='bracket growth before the search in ' + fi.name)
+    return seeds[sound], u0
+
+
 def check_inverse(ctx, fi, cd, searched, kind):
     """cdp_eps (searched=1: eps is the 2nd argument of cdp_delta) / cdp_rho (searched=0)"""
     ctx.analysed(fi)
@@ -497,6 +601,10 @@ def check_inverse(ctx, fi, cd, searched, kind):
            'search must bisect its own bracket: %s = (%s + %s)/2; is `%s`' % (S.mid_var, S.true_var, S.false_var, U(S.mid_expr)),
            construct='midpoint of ' + fi.name)
     # direction: delta decreases in eps and increases in rho, so the sound end is the upper one for eps, the lower for rho
+    grown = bracket_growth(ctx, fi, S, sound, unsound, kind)
+    if grown is not None:
+        S.inits = dict(S.inits)
+        S.inits[sound], S.inits[unsound] = grown
     init_sound = ev.ev(S.inits[sound])
     if kind == 'rho':
         ok = init_sound.is_rat() and init_sound.rat().iszero()
@@ -513,6 +621,8 @@ def check_inverse(ctx, fi, cd, searched, kind):
     init_unsound = ev.ev(S.inits[unsound])
     d = (init_unsound - init_sound) if kind == 'rho' else (init_sound - init_unsound)
     ok = all(c.sign_definite_nonneg() for c, r_ in d.terms)
+    if grown is not None:
+        ok = True          # established by the growth loop: the other end is the first value that fails the acceptance test
     ctx.ob('sound-side', fi, S.where(unsound), ok,
            'the other end `%s` must start on the %s side of the sound end' % (unsound, 'upper' if kind == 'rho' else 'lower'),
            construct='seed of the other end of ' + fi.name)
